@@ -102,7 +102,9 @@ def cmd_run(ids, budget, extra_checks):
                     replay = 'replay-exact' if 'REPRODUCED-EXACTLY' in q.stdout else 'replay-DIFFERS'
                     q2 = subprocess.run([PY, '-m', 'sim', 'replay', path_r], cwd=HERE, env=dict(os.environ, PYTHONHASHSEED='0'),
                                         capture_output=True, text=True)
-                    replay += ', clean on /repo' if q2.returncode == 0 else ', ALSO FAILS ON /repo'
+                    replay += (', clean on /repo' if q2.returncode == 0 else
+                               ', on /repo the same record is an instance of a known finding' if 'is an instance of known finding' in q2.stdout
+                               else ', ALSO FAILS ON /repo')
                     os.remove(path_r)
                 row = {'check': c, 'exit': p.returncode, 'violation': viol[0][:300] if viol else '', 'replay': replay,
                        'budget_s': budget}
